@@ -37,32 +37,33 @@ type Prog struct {
 
 	TypeErrors []string
 
-	noret     map[*Fn]bool
-	noretDone bool
-	cfgs      map[*Fn]*cfgEntry
-	callees   map[*Fn][]*Fn
-	pure      map[*Fn]int // 0 unknown, 1 computing, 2 pure, 3 impure
-	splices   map[*Fn]*spliced
-	owners    map[token.Pos]*Fn
-	hbinds    map[*Fn]map[*types.Var][]Bind
+	noret        map[*Fn]bool
+	noretDone    bool
+	cfgs         map[*Fn]*cfgEntry
+	callees      map[*Fn][]*Fn
+	pure         map[*Fn]int // 0 unknown, 1 computing, 2 pure, 3 impure
+	splices      map[*Fn]*spliced
+	owners       map[token.Pos]*Fn
+	hbinds       map[*Fn]map[*types.Var][]Bind
 	helperCalled map[*Fn]bool
-	writes    map[*Fn]*WriteSet
+	writes       map[*Fn]*WriteSet
+	deps         map[string]*types.Package
 }
 
 // Fn is one function body: a declared function/method, or a function literal.
 type Fn struct {
-	P      *Prog
+	P        *Prog
 	DeclName string // the declared name when Name is a registry alias (see aliasRegistryFns)
-	Name   string // "(*Runtime).executeList", "lexText", "init/\"exec\"", "var:newMap$1", "(*Runtime).executeTry$1"
-	Pkg    *packages.Package
-	Decl   *ast.FuncDecl // nil for literals
-	Lit    *ast.FuncLit  // nil for declared functions
-	Obj    *types.Func   // nil for literals
-	Parent *Fn           // lexically enclosing function (nil for top level / var initialisers)
-	Body   *ast.BlockStmt
-	Type   *ast.FuncType
-	Lits   []*Fn // literals directly or indirectly nested in this body, in source order
-	Sig    *types.Signature
+	Name     string // "(*Runtime).executeList", "lexText", "init/\"exec\"", "var:newMap$1", "(*Runtime).executeTry$1"
+	Pkg      *packages.Package
+	Decl     *ast.FuncDecl // nil for literals
+	Lit      *ast.FuncLit  // nil for declared functions
+	Obj      *types.Func   // nil for literals
+	Parent   *Fn           // lexically enclosing function (nil for top level / var initialisers)
+	Body     *ast.BlockStmt
+	Type     *ast.FuncType
+	Lits     []*Fn // literals directly or indirectly nested in this body, in source order
+	Sig      *types.Signature
 }
 
 func (f *Fn) Info() *types.Info { return f.Pkg.TypesInfo }
@@ -463,6 +464,10 @@ func (p *Prog) MutateFiles(edits map[string][]byte) (*Prog, error) {
 				if dep, ok := oldPk.Imports[path]; ok && dep.Types != nil {
 					return dep.Types, nil
 				}
+				// a variant may add an import: any package loaded as a dependency of the module will do
+				if dep := p.depByPath(path); dep != nil {
+					return dep, nil
+				}
 				return nil, fmt.Errorf("import %q not loaded", path)
 			}),
 			Error: func(err error) { q.TypeErrors = append(q.TypeErrors, err.Error()) },
@@ -489,3 +494,28 @@ func (p *Prog) MutateFiles(edits map[string][]byte) (*Prog, error) {
 type importerFunc func(path string) (*types.Package, error)
 
 func (f importerFunc) Import(path string) (*types.Package, error) { return f(path) }
+
+// depByPath finds a type-checked package among the transitive dependencies of the module packages.
+func (p *Prog) depByPath(path string) *types.Package {
+	if p.deps == nil {
+		p.deps = map[string]*types.Package{}
+		seen := map[*packages.Package]bool{}
+		var walk func(pk *packages.Package)
+		walk = func(pk *packages.Package) {
+			if seen[pk] {
+				return
+			}
+			seen[pk] = true
+			if pk.Types != nil {
+				p.deps[pk.PkgPath] = pk.Types
+			}
+			for _, d := range pk.Imports {
+				walk(d)
+			}
+		}
+		for _, pk := range p.Pkgs {
+			walk(pk)
+		}
+	}
+	return p.deps[path]
+}
